@@ -119,6 +119,12 @@ def check(ctx):
     for o, a in zip(outs, parts):
         runner.run_job(ctx, _job(ctx, "auto", o, a))
         paths.append(o)
+    # (C2) the configured name is a symbolic link: in-place updates through it, then one update published by re-pointing the
+    # link and deleting the old generation (the way configuration managers publish a file)
+    la = ["-mode", "link", "-count", 12 if ctx.quick else 48, "-seed", ctx.seed]
+    louts = run_parts(ctx, "link", [la], 1)
+    runner.run_job(ctx, _job(ctx, "link", louts[0], la))
+    paths += louts
     # (D) two generations in quick succession: a big table, and a small one while the big one is still being parsed
     ga = ["-mode", "gen2", "-count", 1 if ctx.quick else 4]
     gouts = run_parts(ctx, "gen2", [ga], 1)
